@@ -641,12 +641,14 @@ def pipeline_bad(p):
         if abs(v - abs(psi[idx_of(k)]) ** 2) > 1e-9:
             return f"exact distribution {k}: {v} vs |amplitude|^2 {abs(psi[idx_of(k)]) ** 2}"
     subsets = [list(s) for r in range(1, n + 1) for s in itertools.combinations(range(n), r)]
+    if n > 4:  # wide registers: singletons, a few pairs and the full string
+        subsets = [[0], [n - 9], [1, n - 1], list(range(n))]
     for s in subsets:
         e = sim.get_exact_expectation_values(c, op_from_terms([(1.0, [(q, "Z") for q in s])]))
         avg = sum(v * eig(k, s) for k, v in dist.items())
         if abs(e - avg) > 1e-9:
             return f"exact <Z{s}> = {e} but eigenvalue average under the exact distribution = {avg}"
-    for nsamp in (max(1, 2**n - 1), 2**n, 2**n + 1, 4 * 2**n):
+    for nsamp in ((max(1, 2**n - 1), 2**n, 2**n + 1, 4 * 2**n) if n <= 4 else (3, 2**n + 1)):
         m = sim.run_and_measure(c, nsamp)
         if len(m.bitstrings) != nsamp:
             return f"{len(m.bitstrings)} samples for {nsamp} requested"
@@ -763,6 +765,12 @@ def instances(tier, seed):
             items.append(("pipeline", {"n": n, "angles": [None] * (n - used) + [math.pi] * used, "basis": True, "label": f"basis, gates on last {used} of {n} qubits"}))
         for k in range(2 if tier == "quick" else 10):
             items.append(("pipeline", {"n": n, "angles": [round(rng.uniform(0.2, 2.9), 3) for _ in range(n)], "entangle": bool(k % 2), "seed": rng.randrange(1000), "label": f"seeded angles #{k} n={n}"}))
+    # wide registers (basis indices beyond one byte): a few basis states and one seeded product state
+    for n in ((9,) if tier == "quick" else (9, 10, 11)):
+        for ones in (([0], [1, n - 1]) if tier == "quick" else ([0], [1, n - 1], [n - 9], list(range(0, n, 3)))):
+            items.append(("pipeline", {"n": n, "angles": [math.pi if q in ones else 0.0 for q in range(n)], "basis": True, "label": f"wide basis n={n} ones at {ones}"}))
+        if tier == "thorough":
+            items.append(("pipeline", {"n": n, "angles": [round(rng.uniform(0.2, 2.9), 3) for _ in range(n)], "entangle": True, "seed": 11, "label": f"wide seeded angles n={n}"}))
     return items
 
 
